@@ -3,7 +3,8 @@ import json
 import os
 from . import core
 
-FLAGS = {"default": 0xE28A8235, "noversion": 0xE08A8235, "oem": 0xE28A8234 | 2, "oem_noversion": 0xE08A8234 | 2}
+FLAGS = {"default": 0xE28A8235, "noversion": 0xE08A8235, "oem": 0xE28A8234 | 2, "oem_noversion": 0xE08A8234 | 2,
+         "unicode_and_oem": 0xE28A8237, "unicode_and_oem_noversion": 0xE08A8237}   # both character-set bits: UNICODE wins (MS-NLMP 2.2.2.5)
 
 
 def gen(wd, nauth, nsess, maxlen, seed):
